@@ -250,3 +250,8 @@ def run(ctx):
         and "self._frequencies[index].item()" in tn
     ctx.check(okn, "C11.e", "HistogramND.__getitem__:all-int", "edges (left_i[j], right_i[j]) per axis and the content at the index tuple",
               "the all-integer case does not return the per-axis edges at (i, j) and the content at that tuple", ng.where)
+
+    # a sliced binning is a fresh StaticBinning whose only patched attribute is `_bins` (no stale cached representation)
+    ctx.rule("C11.f", "sub-binnings are fresh copies with only `_bins` replaced", 4)
+    from rules import c07
+    c07.check_binning_copies(ctx, "C11.f", m)
